@@ -12,6 +12,7 @@ pub mod c13;
 pub mod c16;
 pub mod c17;
 pub mod c18;
+pub mod c19;
 pub mod replay;
 
 use crate::common::{Coverage, Ctx};
@@ -33,6 +34,7 @@ pub fn dispatch(ctx: &Ctx) -> Option<Coverage> {
         "C16" => c16::run(ctx),
         "C17" => c17::run(ctx),
         "C18" => c18::run(ctx),
+        "C19" => c19::run(ctx),
         "C12" => c11::run_c12(ctx),
         _ => return None,
     })
